@@ -51,6 +51,8 @@ struct ThreadInfo {
     panicked: bool,
     token:    bool,
     notified: bool,
+    /// Barrier generation this thread is waiting for (valid while its pending operation is the barrier yield)
+    bar_gen:  u64,
     wake:     Arc<Condvar>,
 }
 
@@ -82,6 +84,7 @@ struct Inner {
     overrun:      bool,
     snapshot:     Option<Arc<dyn Fn() -> Snapshot + Send + Sync>>,
     pool_count:   usize,
+    barrier_gen:  u64,
     last:         Option<Tid>,
     free_run:     bool,
 }
@@ -133,6 +136,14 @@ impl Inner {
             Op::Park            => t.token,
             Op::Recv(ch)        => self.chans.get(ch).map(|(items, senders)| *items > 0 || *senders == 0).unwrap_or(true),
             Op::Join(other)     => self.threads.get(*other).map(|t| t.finished).unwrap_or(true),
+            // A phase barrier: passed together by all threads waiting at it, once every other thread is finished or blocked
+            Op::Yield("barrier") => t.bar_gen < self.barrier_gen || self.threads.iter()
+                .filter(|o| o.run == self.run && !o.finished && !std::ptr::eq(*o, t))
+                .all(|o| match o.pending.as_ref() {
+                    Some((Op::Yield("barrier"), _)) => o.bar_gen == t.bar_gen,
+                    Some((op, _))                   => !self.enabled_op(o, op),
+                    None                            => false
+                }),
             Op::Yield(_)        => true,
         }
     }
@@ -200,6 +211,7 @@ impl Inner {
         match op {
             Op::Park            => { self.threads[chosen].token = false; }
             Op::CondWait(_, _)  => { self.threads[chosen].notified = false; }
+            Op::Yield("barrier") => { if self.threads[chosen].bar_gen == self.barrier_gen { self.barrier_gen += 1; } }
             _                   => { }
         }
         let enabled_names = enabled.iter().map(|t| self.threads[*t].name.clone()).collect();
@@ -212,7 +224,7 @@ impl Sched {
     pub fn new() -> Sched {
         Sched {
             inner: Mutex::new(Inner {
-                run: 0, threads: vec![], current: None, spawner: None, holder: HashMap::new(), mutex_name: HashMap::new(), class_count: HashMap::new(),
+                run: 0, barrier_gen: 1, threads: vec![], current: None, spawner: None, holder: HashMap::new(), mutex_name: HashMap::new(), class_count: HashMap::new(),
                 cond_waiters: HashMap::new(), chans: HashMap::new(), driver: None, recording: false, trace: vec![], cur_obs: vec![], cur_locks: vec![],
                 cur_step: None, steps: 0, max_steps: 5000, quiescent: false, overrun: false, snapshot: None, pool_count: 0, last: None, free_run: false,
             }),
@@ -269,7 +281,7 @@ impl Sched {
         let wake = Arc::new(Condvar::new());
         static START: &'static str = "start";
         inner.threads.push(ThreadInfo {
-            name, run, pending: if at_start { Some((Op::Yield(START), Location::caller())) } else { None }, finished: false, panicked: false, token: false, notified: false, waited: false, wake: Arc::clone(&wake)
+            name, run, pending: if at_start { Some((Op::Yield(START), Location::caller())) } else { None }, finished: false, panicked: false, token: false, notified: false, waited: false, bar_gen: 0, wake: Arc::clone(&wake)
         });
 
         std::thread::Builder::new().name(format!("dverif-{}", id)).spawn(move || {
@@ -440,6 +452,7 @@ impl Sched {
         let mut inner = self.inner.lock().unwrap();
         let spawning = inner.spawner.is_some();
         if !spawning { inner.end_step(false); }
+        if let Op::Yield("barrier") = op { inner.threads[me].bar_gen = inner.barrier_gen; }
         let enabled_now = { let t = &inner.threads[me]; inner.enabled_op(t, &op) };
         inner.threads[me].waited = !enabled_now;
         inner.threads[me].pending = Some((op, loc));
